@@ -51,6 +51,11 @@ impl TwoWorld {
                 for t in ["MODE {me} +i", "JOIN #p", "JOIN #q", "PART #p", "AWAY :a"] {
                     s.alphabet_for.push((0, t));
                 }
+                // the hidden user becomes an operator and resigns: +i is its own to remove, nothing else removes it
+                s.cfg.opers = vec![crate::spec::SpecOper { name: "op".into(), password: "oppw".into(), mask: None }];
+                for t in ["OPER op oppw", "MODE {me} -O"] {
+                    s.alphabet_for.push((0, t));
+                }
                 if self.full {
                     for t in ["NICK {alt}", "MODE {me} +w", "JOIN #p,#q"] {
                         s.alphabet_for.push((0, t));
@@ -178,7 +183,14 @@ impl Scenario for TwoWorld {
                     Some(n) => n.to_string(),
                     None => return out,
                 };
-                let hidden = v.m.users.get(&m1).map_or(false, |u| u.i) && !v.m.share_channel(&m1, &obs_nick);
+                // +i is set by its holder only and (in this alphabet) never removed
+                let asked_i = v.hist.iter().any(|a| matches!(a, Act::Send(0, l) if l.starts_with("MODE ") && l.ends_with(" +i")));
+                let is_i = v.m.users.get(&m1).map_or(false, |u| u.i);
+                if asked_i && v.m.users.contains_key(&m1) && !is_i {
+                    out.push(finding("invisible-lost", format!("{} set +i and never removed it, yet the server no longer holds it as invisible (history {:?})", m1, v.hist.iter().map(|a| a.render()).collect::<Vec<_>>())));
+                    return out;
+                }
+                let hidden = is_i && !v.m.share_channel(&m1, &obs_nick);
                 if !hidden {
                     return out;
                 }
